@@ -1862,6 +1862,8 @@ package go_clipper2
 //@   props C06 C03
 //@   ensures [clockwise] validLoc(prev) && validLoc(curr) ==> result == ((prev == 0 && curr == 1) || (prev == 1 && curr == 2) || (prev == 2 && curr == 3) || (prev == 3 && curr == 0) || (prev == 4 && curr == 1))
 
+//@ spec strictlyInsideRP(p Point64, rp Path64) bool = rp[0].X < p.X && p.X < rp[1].X && rp[0].Y < p.Y && p.Y < rp[2].Y
+//@ spec onBoundaryRP(q Point64, rp Path64) bool = rp[0].X <= q.X && q.X <= rp[1].X && rp[0].Y <= q.Y && q.Y <= rp[2].Y && (q.X == rp[0].X || q.X == rp[1].X || q.Y == rp[0].Y || q.Y == rp[2].Y)
 //@ func getIntersection
 //@   props C06 C11 C03
 //@   requires len(rectPath) == 4 && validLoc(*loc)
@@ -1869,6 +1871,7 @@ package go_clipper2
 //@   requires rectPath[0].X == rectPath[3].X && rectPath[1].X == rectPath[2].X && rectPath[0].Y == rectPath[1].Y && rectPath[2].Y == rectPath[3].Y
 //@   ensures [loc-is-a-side-when-found] result1 ==> sideLoc(*loc)
 //@   ensures [loc-kept-when-not-found] !result1 ==> *loc == old(*loc)
+//@   ensures [from-inside-a-segment-that-ends-on-the-boundary-is-reported-at-that-end-on-the-first-side-that-holds-it] (old(*loc) == Inside && strictlyInsideRP(p, rectPath) && onBoundaryRP(p2, rectPath)) ==> (result1 && result0 == p2 && *loc == ite(p2.X == rectPath[0].X, Left, ite(p2.Y == rectPath[0].Y, Top, ite(p2.X == rectPath[1].X, Right, Bottom))))
 //@   assert after return#1 [from-the-left-zone-the-top-edge-is-tried-only-above-the-rectangle] p.Y < rectPath[0].Y
 //@   assert after return#5 [from-the-right-zone-the-top-edge-is-tried-only-above-the-rectangle] p.Y < rectPath[0].Y
 //@   assert after return#9 [from-the-top-zone-the-left-edge-is-tried-only-left-of-the-rectangle] p.X < rectPath[0].X
@@ -2306,7 +2309,7 @@ package go_clipper2
 
 // values outside the ClipType / FillRule enumerations never reach the sweep (C03)
 //@ func clipperBase.executeInternal variant enums
-//@   props C03 C12
+//@   props C03 C12 C19 C01 C09 C17
 //@   nosafety
 //@   assumes len(c.scanlineList) == 0 && forall(k, 0, len(c.minimaList), c.minimaList[k] != nil && c.minimaList[k].Vertex != nil)
 //@   ensures [unknown-clip-type-clips-nothing] (ct == NoClip || ct > Xor) ==> (c.succeeded && c.fillRule == old(c.fillRule) && c.clipType == old(c.clipType) && same(c.outrecList, old(c.outrecList)))
@@ -2687,6 +2690,7 @@ package go_clipper2
 //@   nosafety
 //@   opaque clipperBase.popScanline clipperBase.reset
 //@   assert after c.currentBotY#0 [horizontal-segments-are-consumed-before-the-sweep-leaves-their-scanline] len(c.horzSegList) == 0
+//@   assert after c.clipType#0 [the-sweep-runs-the-requested-operation-under-the-requested-fill-rule] c.clipType == ct && ((old(fillRule) == EvenOdd || old(fillRule) == NonZero || old(fillRule) == Positive || old(fillRule) == Negative) ==> c.fillRule == old(fillRule)) && (c.fillRule == EvenOdd || c.fillRule == NonZero || c.fillRule == Positive || c.fillRule == Negative)
 
 // convertHorzSegsToJoins (C02, C17): a join is recorded only for two horizontal segments that run in opposite
 // directions and whose X ranges properly overlap, and at most one per pair
